@@ -215,7 +215,8 @@ func reap(fork *lang.Fork) {
 		return
 	}
 	for _, procs := range fork.Forks.GetForks() {
-		for _, p := range *procs {
+		for i := range *procs {
+			p := &(*procs)[i]
 			if p.Stdin != nil {
 				p.Stdin.ForceClose()
 			}
